@@ -1,13 +1,13 @@
 ------------------------------- MODULE MC_Text -------------------------------
-(* X08-a on the specification, and the source of its S2C replay.  One step  chunk --Eval--> case  per case   *)
-(* of the universe;    the invariants are the laws of the statement (one per clause), each looking at  *)
+(* X08-a on the specification, and the source of its S2C replay.  One behaviour  c --Eval--> done  per   *)
+(* case of the universe; the invariants are the laws of the statement (one per clause), each looking at  *)
 (* the cases of its own operation; the generator configuration prints every case of the domain with the  *)
 (* SET of outcomes the specification admits.                                                              *)
 EXTENDS TextNum, TLC, Json, SequencesExt, FiniteSetsExt
 CONSTANTS Strata,        \* which parts of the universe: subset of {"prefix", "sep", "replace", "split", "chars", "bbg", "num", "misc"}
           NumLen         \* as_float: every string of at most NumLen characters over the 13 character alphabet
-VARIABLES c            \* a chunk marker [op |-> "chunk", k] (initial states) or one case of the universe (its successors)
-vars == <<c>>
+VARIABLES c, done      \* one case of the universe; the laws are looked at in the successor state (done), where the workers share them
+vars == <<c, done>>
 
 SeqsUpTo(S, n) == UNION {[1..k -> S] : k \in 0..n}
 AB1 == SeqsUpTo({97, 98}, 1)
@@ -67,19 +67,14 @@ Universe == (IF "prefix" \in Strata THEN PrefixCases ELSE {}) \cup (IF "sep" \in
             \cup (IF "chars" \in Strata THEN CharCases ELSE {}) \cup (IF "bbg" \in Strata THEN BbgCases ELSE {})
             \cup (IF "num" \in Strata THEN NumCases ELSE {}) \cup (IF "misc" \in Strata THEN MiscCases ELSE {})
 
-\* the universe is dealt out to K initial states, so that the workers share the evaluation of the laws
-US == SetToSeq(Universe)
-K  == 64
-Lo(k) == ((k - 1) * Len(US)) \div K + 1
-Hi(k) == (k * Len(US)) \div K
-Init == c \in {[op |-> "chunk", k |-> k] : k \in 1..K}
-Eval == c.op = "chunk" /\ \E i \in Lo(c.k)..Hi(c.k) : c' = US[i]
+Init == c \in Universe /\ done = FALSE
+Eval == done = FALSE /\ done' = TRUE /\ UNCHANGED c
 EvalGen == /\ Eval
-           /\ IF InDomain(c') THEN PrintT(ToJson([case |-> c', want |-> SetToSeq(Want(c'))])) ELSE TRUE
+           /\ IF InDomain(c) THEN PrintT(ToJson([case |-> c, want |-> SetToSeq(Want(c))])) ELSE TRUE
 
 \* ---------------------------------------------------------------------------------------------------------
 \* the laws
-Is(o) == c.op = o
+Is(o) == done /\ c.op = o
 TxPrefixes(s) == {TxTake(s, n) : n \in 0..Len(s)}
 \* the common prefix is the greatest lower bound of the values in the prefix order; the loop of the code finds it
 MeetIsGLB == (Is("common_prefix") /\ c.vs # <<>>) =>
@@ -131,7 +126,7 @@ ReplaceFixpoint == (Is("replace") /\ IsStrV(c.x) /\ ~Refused(c.olds, c.new) /\ I
 \* the refusal is exactly the case that could never end on a text holding the old one
 RefusalJustified == (Is("replace") /\ IsStrV(c.x) /\ Len(c.olds) = 1 /\ c.olds[1] # <<>>) =>
                 (Refused(c.olds, c.new) => Occurs(ReplaceOnce(c.olds[1], c.olds[1], c.new), c.olds[1]))
-CharMapLaws == (c.op \in {"as_ascii", "capitalize", "relabel_lower"} /\ IsStrV(c.x)) =>
+CharMapLaws == (done /\ c.op \in {"as_ascii", "capitalize", "relabel_lower"} /\ IsStrV(c.x)) =>
                 LET s == c.x[2] IN
                 /\ Lower(Upper(Lower(s))) = Lower(s) /\ Upper(Lower(Upper(s))) = Upper(s)
                 /\ Capitalize(Capitalize(s)) = Capitalize(s) /\ Lower(Capitalize(s)) = Lower(s)
